@@ -63,9 +63,9 @@ Qed.
 Lemma prepare_clean ctx sib src k : (forall n, no_reject (k n)) -> clean (prepare ctx sib src k).
 Proof.
   intros H. destruct src as [n|fresh s|fresh name]; cbn [prepare].
-  - cbn. intros w. destruct (lone w n); [|exact I]. destruct (w_kind w n); [|exact I].
-    apply validate_opt_clean. cbn. intros w'. destruct (is_ancestor_or_self w' n ctx); [exact I|].
-    apply no_reject_clean, H.
+  - cbn [clean]. intros w. destruct (lone w n); [|exact I]. unfold no_cycle. cbn [clean]. intros w'.
+    destruct (is_ancestor_or_self w' n ctx); [exact I|]. cbn [clean]. intros w''. destruct (w_kind w'' n); [|exact I].
+    apply validate_opt_clean. apply no_reject_clean, H.
   - apply validate_opt_clean. cbn. apply H.
   - cbn. intros w. destruct (tagdef_ctx w ctx) as [[c ns]|]; [|exact I]. apply validate_opt_clean. cbn. apply H.
 Qed.
@@ -170,14 +170,17 @@ Definition root_refuses (w : world) (x : nid) (nk : nkind) : option exn :=
   | None => if (is_cpik nk && (kind_is w x is_cpik || is_doc_root w x))%bool then None
             else Some (if kind_is w x (nkind_eqb NTag) then ETypeError else EInvalidOperation)
   end.
-(* offered node attached -> InvalidOperation; text / tag (or anything next to a parentless text or tag) as sibling of a
-   root -> InvalidOperation, TypeError when the root is a tag node *)
+(* offered node attached (or a document's root) -> InvalidOperation; offered node is the target or one of its ancestors
+   -> InvalidOperation; tag() next to a parentless text, comment or PI -> InvalidOperation; text / tag (or anything next
+   to a parentless text or tag) as sibling of a root -> InvalidOperation, TypeError when the root is a tag node *)
 Definition sibling_refusal (w : world) (x : nid) (src : nsrc) : option exn :=
   match src with
-  | SNode n => if lone w n then match w_kind w n with Some nk => root_refuses w x nk | None => None end
+  | SNode n => if lone w n
+               then if is_ancestor_or_self w n x then Some EInvalidOperation
+                    else match w_kind w n with Some nk => root_refuses w x nk | None => None end
                else Some EInvalidOperation
   | SStr _ _ => root_refuses w x NText
-  | STag _ _ => match tagdef_ctx w x with Some _ => root_refuses w x NTag | None => None end
+  | STag _ _ => match tagdef_ctx w x with Some _ => root_refuses w x NTag | None => Some EInvalidOperation end
   end.
 
 Lemma validate_opt_run x nk k w : no_reject k ->
@@ -196,10 +199,12 @@ Lemma sibling_call_refused w x src (k : nid -> prog) : (forall n, no_reject (k n
 Proof.
   intros Hk e. destruct src as [n|fresh s|fresh name]; cbn [prepare sibling_refusal run_a].
   - destruct (lone w n); cbn [run_a snd]; [|split; intros E; injection E as <-; reflexivity].
+    unfold no_cycle. cbn [run_a]. destruct (is_ancestor_or_self w n x); cbn [run_a snd];
+      [split; intros E; injection E as <-; reflexivity|].
     destruct (w_kind w n) as [nk|]; cbn [run_a snd]; [|split; discriminate].
-    apply validate_opt_run. cbn. intros w'. destruct (is_ancestor_or_self w' n x); [reflexivity|apply Hk].
+    apply validate_opt_run. apply Hk.
   - apply validate_opt_run. cbn. apply Hk.
-  - destruct (tagdef_ctx w x) as [[c ns]|]; cbn [run_a snd]; [|split; discriminate].
+  - destruct (tagdef_ctx w x) as [[c ns]|]; cbn [run_a snd]; [|split; intros E; injection E as <-; reflexivity].
     apply validate_opt_run. cbn. apply Hk.
 Qed.
 
